@@ -25,6 +25,7 @@ package home
 //vx:stub (*net/http.fileHandler).ServeHTTP vxC11FileServer
 //vx:stub golang.org/x/crypto/bcrypt.CompareHashAndPassword vxC11Compare
 //vx:stub time.Now vxC11Now
+//vx:stub (*net/http.Request).Cookie vxC11Cookie
 //vx:stub (*github.com/AdguardTeam/AdGuardHome/internal/home.Auth).storeSession vxC11StoreSession
 //vx:stub (*github.com/AdguardTeam/AdGuardHome/internal/home.Auth).removeSessionFromFile vxC11RemoveSessionFromFile
 //vx:stubdyn github.com/AdguardTeam/AdGuardHome/internal/home.ensure$1 vxC11Innermost
@@ -143,6 +144,19 @@ func vxC11Redirect(w http.ResponseWriter, r *http.Request, url string, code int)
 }
 
 func vxC11HTTPError(w http.ResponseWriter, text string, code int) { w.WriteHeader(code) }
+
+// vxC11Cookie replaces (*http.Request).Cookie for requests without a Cookie
+// header only (the engine cannot run net/http's package initialiser, which the
+// load of http.ErrNoCookie triggers); a present header is parsed by the real
+// code.
+func vxC11Cookie(r *http.Request, name string) (*http.Cookie, error) {
+	if _, ok := r.Header["Cookie"]; !ok {
+		return nil, vxC11ErrNoCookie
+	}
+	return r.Cookie(name)
+}
+
+const vxC11ErrNoCookie errors.Error = "http: named cookie not present"
 
 // ---- events ----
 
@@ -279,11 +293,18 @@ var vxC11RootPaths = []string{
 }
 
 // vxC11Serve serves one symbolic request on route rt and checks the outcome.
-func vxC11Serve(rt vxC11Route, full bool) {
+// rootPaths are the request paths tried on the "/" subtree.
+func vxC11Serve(rt vxC11Route, full bool, rootPaths []string) {
 	vx.Note(rt.pattern)
+	wide := full && vx.Thorough()
+	install := vxC11IsInstall(rt.pattern)
+	decl := rt.declared
+	if decl == "-" {
+		decl = vxC11DirectDeclared(rt.pattern)
+	}
 
 	// --- state of the server ---
-	firstRun := vx.Bool("firstRun")
+	firstRun := vx.Choice("firstRun", 2) == 1
 	globalContext.firstRun = firstRun
 	GLMode = false
 	admin := vx.Choice("adminExists", 2) == 1
@@ -305,47 +326,31 @@ func vxC11Serve(rt vxC11Route, full bool) {
 	vx.Assume(now <= t0+10*86400)
 	vxC11NowSec = now
 
-	// --- the request ---
+	// --- the request: path ---
 	path := rt.pattern
 	switch {
 	case rt.pattern == "/":
-		if full && vx.Thorough() && vx.Choice("symbolicPath", 2) == 1 {
+		if wide && vx.Choice("symbolicPath", 2) == 1 {
 			n := 1 + vx.Choice("pathLen", 12)
 			path = vx.String("path", n)
 			vx.Assume(path[0] == '/')
 		} else {
-			path = vxC11RootPaths[vx.Choice("path", len(vxC11RootPaths))]
+			path = rootPaths[vx.Choice("path", len(rootPaths))]
 		}
 	case vxC11HasSuffix(rt.pattern, "/"):
 		// a subtree pattern
 		path = rt.pattern + []string{"", "client-1"}[vx.Choice("path", 2)]
 	}
 
-	mlens := []int{3, 4}
-	if full && vx.Thorough() {
-		mlens = []int{3, 4, 5, 6, 7}
-	}
-	method := vx.String("method", mlens[vx.Choice("methodLen", len(mlens))])
-
-	hdr := http.Header{}
-	ctLens := []int{0, 16}
-	if full && vx.Thorough() {
-		ctLens = []int{0, 16, 10, 33}
-	}
-	ctype := vx.String("contentType", ctLens[vx.Choice("contentTypeLen", len(ctLens))])
-	if ctype != "" {
-		hdr["Content-Type"] = []string{ctype}
-	}
-	clen := vx.Int64("contentLength")
-
+	// --- the request: credentials ---
 	// cookie: 0 absent, 1 names a stored session (any expiry), 2 names no
-	// stored session
+	// stored session; basic credentials: 0 absent, 1 the administrator's name
+	// with a password (right or wrong), 2 another name
+	hdr := http.Header{}
 	cookie, basic := 0, 0
 	expire := uint32(0)
-	if admin {
+	if admin && (!firstRun || wide) {
 		cookie = vx.Choice("cookie", 3)
-		// basic credentials: 0 absent, 1 the administrator's name with a
-		// password (right or wrong), 2 another name
 		basic = vx.Choice("basic", 3)
 	}
 	if cookie != 0 {
@@ -365,6 +370,54 @@ func vxC11Serve(rt vxC11Route, full bool) {
 		hdr["Authorization"] = []string{"Basic eDpwdw=="} // x:pw
 	}
 
+	// reference: credentials carried by the request
+	validSession := cookie == 1 && uint32(now) < expire
+	rightBasic := basic == 1 && vxC11PwOK
+	authed := vx.Or(validSession, rightBasic)
+	if !wide && cookie == 1 && basic != 0 {
+		// quick tier: basic credentials next to a session cookie only with an
+		// expired session
+		vx.Assume(!validSession)
+	}
+
+	// --- the request: method, content type, length ---
+	// The full set of shapes is tried where the statement lets the request
+	// through to the method guard; refused requests get one shape (symbolic
+	// contents all the same).
+	shapes := wide
+	if !shapes {
+		switch {
+		case install:
+			shapes = firstRun
+		case firstRun || !admin:
+			shapes = false
+		default:
+			shapes = vx.Or(vxC11Public(rt.pattern, path), authed)
+		}
+	}
+	mlen, ctlen := 3, 16
+	if len(decl) > 1 {
+		mlen = len(decl)
+	}
+	if shapes {
+		mlens := []int{3, 4}
+		ctLens := []int{0, 16}
+		if wide {
+			mlens = []int{3, 4, 5, 6, 7}
+			ctLens = []int{0, 16, 10, 33}
+		}
+		mlen = mlens[vx.Choice("methodLen", len(mlens))]
+		ctlen = ctLens[vx.Choice("contentTypeLen", len(ctLens))]
+	}
+	method := vx.String("method", mlen)
+	ctype := vx.String("contentType", ctlen)
+	if ctype != "" {
+		hdr["Content-Type"] = []string{ctype}
+	}
+	// -1 = unknown length (chunked)
+	clen := vx.Int64("contentLength")
+	vx.Assume(clen >= -1)
+
 	r := &http.Request{
 		Method:        method,
 		Host:          "agh.example",
@@ -380,16 +433,7 @@ func vxC11Serve(rt vxC11Route, full bool) {
 
 	ran := vxC11Ran > 0
 
-	// --- reference: credentials carried by the request ---
-	validSession := cookie == 1 && uint32(now) < expire
-	rightBasic := basic == 1 && vxC11PwOK
-	authed := vx.Or(validSession, rightBasic)
-
 	// --- method and content type of state-changing endpoints ---
-	decl := rt.declared
-	if decl == "-" {
-		decl = vxC11DirectDeclared(rt.pattern)
-	}
 	if rt.declared == "" {
 		vx.Assert(rt.pattern == "/dns-query" || rt.pattern == "/dns-query/", "only the DNS-over-HTTPS resolver is registered without a method")
 	}
@@ -403,7 +447,6 @@ func vxC11Serve(rt vxC11Route, full bool) {
 	}
 
 	// --- markers that do not depend on the property's precondition ---
-	install := vxC11IsInstall(rt.pattern)
 	if !ran && w.code == http.StatusMethodNotAllowed {
 		if install {
 			vx.Reach("install-method-refused")
@@ -515,7 +558,7 @@ func vxC11Routes() {
 	n := len(vxC11Routes_)
 	vx.Assert(n > 0, "routes are registered")
 	rt := vxC11Routes_[vx.Choice("route", n)]
-	vxC11Serve(rt, true)
+	vxC11Serve(rt, true, vxC11RootPaths)
 }
 
 // vxC11Install: a server that started unconfigured and has completed the
@@ -530,5 +573,5 @@ func vxC11Install() {
 	}
 	vx.Assert(len(sel) == 7, "install wizard routes are registered on first run")
 	rt := sel[vx.Choice("route", len(sel))]
-	vxC11Serve(rt, false)
+	vxC11Serve(rt, false, []string{"/", "/install.html", "/assets/x"})
 }
